@@ -60,7 +60,7 @@ class State:
     def clone(s):
         t = State(); t.stack = [f.clone() for f in s.stack]; t.objs = {k: o.clone() for k, o in s.objs.items()}
         t.pc = list(s.pc); t.next_obj = s.next_obj; t.log = list(s.log); t.obls = list(s.obls); t.loops = dict(s.loops)
-        t.flat = None if s.flat is None else dict(s.flat); t.aux = dict(s.aux); return t
+        t.flat = None if s.flat is None else dict(s.flat); t.aux = {k: (dict(v) if isinstance(v, dict) else v) for k, v in s.aux.items()}; return t
     def alloc(s, size, name, default=None):
         i = s.next_obj; s.next_obj += 1; s.objs[i] = Obj(size, name, default); return Ptr(i, 0)
     def obj(s, p):
